@@ -19,6 +19,26 @@ HOOKS = {
 }
 
 PROPS = {
+    "C08": {
+        "bin": "c08",
+        "explanation": "Mode O two-copy checking inside one execution: interpolator A and interpolator B share the axis, the queries and lane j's data and boundary entry while every other lane's data symbols and boundary kinds / "
+                       "values differ; a third interpolator is built from lane j alone. For every feasible path (both builds Ok) lane j's outputs of A and B must be the same IEEE value (same recorded term, or a z3 query), and A's "
+                       "lane j must agree with the lane-alone interpolator. Counterexamples are replayed natively (also with NaN / inf / huge poison in the other lanes).",
+        "trusted_base": O_TRUST,
+        "technique": "two-copy (non-interference) symbolic execution at a term-recording scalar + z3 QF_FP/UF; term identity where the implementation is lane-wise",
+        "level_text": "Bounded symbolic model checking of lane independence for all IEEE data / boundary values / queries over trailing shapes incl. non-square, length-1 and length-0 axes, data ranks 2..4 (thorough ..6 and IxDyn), all strategies incl. per-lane Individual boundaries exercising the recursive dispatch.",
+        "level_note": "Trusted: engine S, z3. Sizes bounded (n <= 4). The lane-alone comparison is required only up to rounding; bit-identity is what the current tree gives and is what a recorded-term identity shows. Assumes C11 for index-guess casts.",
+    },
+    "C20": {
+        "bin": "c20",
+        "explanation": "Mode O two-copy non-interference inside one execution: copy B shares with copy A the query, the two (four) bracketing axis values and data points of a chosen bracket (cell); every other data value is an "
+                       "independent unconstrained IEEE value and every other axis value is independent subject to both axes being strictly increasing. With the query constrained to that bracket, both copies must return the same IEEE value "
+                       "for every lane (term identity or z3). A counterexample is replayed natively, also with NaN / inf poison in the non-shared samples.",
+        "trusted_base": O_TRUST,
+        "technique": "two-copy (non-interference) symbolic execution + z3 QF_FP/UF over all axis values, data (incl. NaN/inf poison) and queries; native poison replay",
+        "level_text": "Bounded symbolic model checking of 'depends only on the bracketing points' for all IEEE values: every bracket of Linear n = 3..4 (thorough 5) and every cell of 3x3 / 3x4 Bilinear grids, in range and extrapolated, 1-2 lanes. Catches hidden dependencies such as `+ 0*y_other` that exact-arithmetic reasoning and the tests cannot see.",
+        "level_note": "Trusted: engine S, z3. Sizes bounded. Assumes C11 for index-guess casts. Uninterpreted arithmetic: equality of results is shown by congruence (same operations on same operands), which is sound for every IEEE implementation of the operations.",
+    },
     "C15": {
         "bin": "c15",
         "explanation": "Relational checking in mode R: inside one execution two (three) real interpolators are built from related symbolic inputs - data scaled by a symbolic factor, sum of two data sets, axis and "
